@@ -707,7 +707,8 @@ class Sim:
                     stack.append((co.co_qualname, f.f_lineno))
                 f = f.f_back
             self.landings.append({'thread': t.name, 'role': t.role, 'exc': getattr(exc, '__name__', type(exc).__name__),
-                                  'at': (qn, line), 'dp': kind, 'ndp': t.ndp, 'stack': stack, 'evalbreak': True})
+                                  'at': (qn, line), 'dp': kind, 'ndp': t.ndp, 'stack': stack, 'evalbreak': True,
+                                  'step': self.steps, 'nseq': len(self.truth)})
             self.ev('async-raise', t.name, qn, line, kind)
             raise exc
 
